@@ -160,7 +160,7 @@ Definition answer_mem (c : mstate) (b : Z) (q : query) : sexp :=
   match q with
   | QRead limit ws we _ _ => L (res_s out_s (mem_read c b limit ws we) :: round_s ws we)
   | QCount ws we _ _ => L [res_s out_s (mem_readcount c b ws we)]
-  | QRound utc off => L [A (round_start_tz utc off); A (round_end_tz utc off)]
+  | QRound utc off => L [A (bucket_round_start_tz utc off); A (bucket_round_end_tz utc off)]
   end.
 
 Definition answer_sq (c : sqstate) (b : Z) (q : query) : sexp :=
@@ -173,7 +173,7 @@ Definition answer_sq (c : sqstate) (b : Z) (q : query) : sexp :=
       if param_ok ws plo && param_ok we phi then
         L [res_s out_s (sq_readcount (const_param plo) (const_param phi) c b ws we)]
       else bad_case
-  | QRound utc off => L [A (round_start_tz utc off); A (round_end_tz utc off)]
+  | QRound utc off => L [A (bucket_round_start_tz utc off); A (bucket_round_end_tz utc off)]
   end.
 
 (* every row of the events table (of any bucket) at the time of the query must be listed *)
@@ -182,7 +182,7 @@ Definition answer_pw (tbl : list (Z * Z * Z)) (c : pwstate) (b : Z) (q : query) 
     match q with
     | QRead limit ws we _ _ => L (res_s out_s (pw_read (table_end tbl) c b limit ws we) :: round_s ws we)
     | QCount ws we _ _ => L [res_s out_s (pw_readcount (table_end tbl) c b ws we)]
-    | QRound utc off => L [A (round_start_tz utc off); A (round_end_tz utc off)]
+    | QRound utc off => L [A (bucket_round_start_tz utc off); A (bucket_round_end_tz utc off)]
     end
   else bad_case.
 
